@@ -22,8 +22,8 @@ func init() {
 			ruleDaemonLog(r)
 			ruleErrSticky(r, []string{dockerlogPkg}, 1)              // "never silently dropped": the recorded fault survives further Next calls
 			ruleErrLoop(r, []string{enginePkg, metricPkg, itersPkg}) // a fault recorded by the decoder is asked for (Err) by every consumer loop before it reports success
-			ruleMergeIter(r)    // records of several decoded streams are handed on without loss: the merge refills from the stream it popped
-			ruleOwnWrapScoped(r, []string{metricPkg, enginePkg}, 2) // a decode fault travels up through every wrapper's Err()
+			ruleMergeIter(r)                                         // records of several decoded streams are handed on without loss: the merge refills from the stream it popped
+			ruleOwnWrapScoped(r, []string{metricPkg, enginePkg}, 2)  // a decode fault travels up through every wrapper's Err()
 		},
 	})
 }
